@@ -29,7 +29,8 @@ EXPECTED_PROBES = {
     'C01': ['sgr_equals_style_changes', 'sgr_more_than_style_changes', 'reset_and_reemit'],
     'C04': ['empty_slice_of_formatted', 'bound_on_change_point', 'bound_next_to_change_point', 'negative_bound',
             'bound_beyond_length', 'equal_settings_overlap_in_range'],
-    'C05': ['seam_equal_settings', 'seam_prefix_equal', 'seam_partly_equal', 'seam_different', 'seam_one_side_plain',
+    'C09': ['iterator_source_changed_between_nexts'],
+    'C05': ['plain_operand_with_escape', 'seam_equal_settings', 'seam_prefix_equal', 'seam_partly_equal', 'seam_different', 'seam_one_side_plain',
             'empty_operand', 'self_operand'],
     'C06': ['topmost_with_conflict', 'topmost_no_conflict', 'not_topmost_with_conflict', 'not_topmost_no_conflict',
             'end_beyond_length', 'negative_bound', 'change_point_inside_range'],
@@ -39,7 +40,7 @@ EXPECTED_PROBES = {
             'unparsable_setting_present'],
     'C11': ['non_uniform_receiver:split', 'non_uniform_receiver:replace', 'non_uniform_receiver:strip',
             'non_uniform_receiver:partition', 'non_uniform_receiver:splitlines', 'non_uniform_receiver:assign',
-            'replace_two_or_more_matches_plain', 'replace_two_or_more_matches_formatted_replacement',
+            'replace_plain_with_escape', 'replace_two_or_more_matches_plain', 'replace_two_or_more_matches_formatted_replacement',
             'pieces_of_formatted_receiver', 'separator_text_recurs_in_piece'],
     'C16': ['empty_match', 'adjacent_matches', 'count_cuts_matches', 'case_insensitivity_matters',
             'plain_pattern_with_metacharacters'],
